@@ -231,6 +231,7 @@ func runCheck(prop, tier string, seed int) int {
 	covers := 0
 	frameSites := 0
 	autoInvs := 0
+	loopsTotal, loopsTerm := 0, 0
 	var notes []string
 	crossStats := map[string]map[string]int{}
 	for _, r := range results {
@@ -241,6 +242,8 @@ func runCheck(prop, tier string, seed int) int {
 			notes = append(notes, fmt.Sprintf("%s: %s", r.name, n))
 		}
 		autoInvs += r.ex.AutoInvs
+		loopsTotal += r.ex.LoopsTotal
+		loopsTerm += r.ex.LoopsTerminating
 		if r.ex.Spec != nil {
 			withSpec++
 		}
@@ -390,6 +393,7 @@ func runCheck(prop, tier string, seed int) int {
 		"contract_files":           w.db.Files,
 		"contract_file_notes":      w.contractNotes,
 		"derived_loop_invariants":  autoInvs,
+		"loops":                    map[string]interface{}{"executed": loopsTotal, "with_termination_argument": loopsTerm, "rule": "a loop has a termination argument when it is unrolled under an unwinding obligation, or its test compares a counter that strictly increases with a bound proved unchanged at every back edge (variant obligation); others are listed in notes"},
 		"notes":                    dedupe(notes),
 		"rule":                     "one obligation per potentially panicking instruction, per requires at a call site, per ensures at each return, per loop invariant (init/keep); an obligation is discharged when the negated goal is unsat",
 	}
